@@ -60,7 +60,12 @@ Definition is_closing_tag (line : str) : bool := starts_any (lstrip line) closin
 Definition blank (line : str) : bool := is_nil (strip line).
 
 (* ---- preprocess_tag_block_spacing ---- *)
-Fixpoint preprocess_lines (prev : option str) (lines : list str) : list str :=
+(* [inb]: a list or table has begun since the last empty line or tag line (its last item may go on over further lines) *)
+Definition next_in_block (inb : bool) (line : str) : bool :=
+  if blank line || is_tag_only_line line then false
+  else if line_is_block_content line then true else inb.
+
+Fixpoint preprocess_lines (prev : option str) (inb : bool) (lines : list str) : list str :=
   match lines with
   | [] => []
   | line :: rest =>
@@ -70,14 +75,14 @@ Fixpoint preprocess_lines (prev : option str) (lines : list str) : list str :=
         | Some pl =>
             let pe := blank pl in
             (if negb pe && is_tag_only_line pl && line_is_block_content line then [[]] else [])
-            ++ (if negb pe && line_is_block_content pl && is_tag_only_line line then [[]] else [])
+            ++ (if negb pe && inb && is_tag_only_line line then [[]] else [])
         end in
-      ins ++ line :: preprocess_lines (Some line) rest
+      ins ++ line :: preprocess_lines (Some line) (next_in_block inb line) rest
   end.
 
 Definition preprocess_tag_block_spacing (text : str) : str :=
   let lines := split_on 10 text in
-  if existsb is_tag_only_line lines then join [10] (preprocess_lines None lines) else text.
+  if existsb is_tag_only_line lines then join [10] (preprocess_lines None false lines) else text.
 
 (* ---- normalize / denormalize adjacent tags ---- *)
 Fixpoint first_pair (mm : mmatch) (idxs : list nat) (sep : str) : M str :=
